@@ -689,4 +689,56 @@ def okFile (m : RMatrix) : List FileStmt → Bool
   | [] => true
   | f :: fs => f.okIn m && okFile (f.apply m) fs
 
+/-! ## the core of the writer: frames with their signals, further senders, comments of frames and signals
+
+`dump` writes the frame section, then a `BO_TX_BU_` line for every frame with more than one sender, then the comments of the frames, then
+the comments of the signals (formats/dbc.py ~300-370).  `WFrame` is a frame as this part of the writer sees it. -/
+
+structure WSig where
+  sg : SgLine
+  comment : Option Str := none
+  deriving Repr, DecidableEq, Inhabited
+
+structure WFrame where
+  bo : BoLine                      -- number, name, length, first sender
+  sigs : List WSig
+  moreSenders : List Str := []     -- the senders after the first
+  comment : Option Str := none
+  deriving Repr, DecidableEq, Inhabited
+
+def WFrame.block (f : WFrame) : Block := ⟨f.bo, f.sigs.map (·.sg)⟩
+
+def WFrame.senders (f : WFrame) : List Str := f.bo.transmitter :: f.moreSenders
+
+def WFrame.txStmts (f : WFrame) : List FileStmt :=
+  if f.moreSenders.isEmpty then [] else [.one (.tx ⟨f.bo.id, f.senders⟩)]
+
+def WFrame.cmStmts (f : WFrame) : List FileStmt :=
+  match f.comment with
+  | some c => [.cm (.bo f.bo.id) c]
+  | none => []
+
+def WFrame.sigCmStmts (f : WFrame) : List FileStmt :=
+  f.sigs.filterMap fun s => s.comment.map fun c => .cm (.sg f.bo.id s.sg.name) c
+
+/-- the lines of the core of a file -/
+def writeCore (fs : List WFrame) : List Str :=
+  writeFrames (fs.map WFrame.block) ++
+  writeFile (fs.flatMap WFrame.txStmts ++ fs.flatMap WFrame.cmStmts ++ fs.flatMap WFrame.sigCmStmts)
+
+/-- what the reader is expected to have built for such a frame (numbers of the `SG_` lines as they are read back) -/
+def WFrame.expect (f : WFrame) (k : Nat × Bool) : RFrame :=
+  { key := k, name := f.bo.name, size := f.bo.size, transmitters := f.senders,
+    sigs := f.sigs.map fun s => { sg := rereadSg s.sg, comment := s.comment },
+    comment := f.comment, complexMux := f.sigs.any fun s => tagIsValMuxer s.sg.tag }
+
+/-- the envelope: well-formed lines, the number denotes the identifier `k`, senders pairwise different identifiers, comments the statement
+can carry, signal names pairwise different -/
+def WFrame.wf (f : WFrame) (k : Nat × Bool) : Bool :=
+  wfBlock f.block && boKey f.bo == some k && keyOfCompound f.bo.id == some k &&
+  f.senders.all isIdent && decide f.senders.Nodup &&
+  (match f.comment with | some c => wfComment c | none => true) &&
+  f.sigs.all (fun s => match s.comment with | some c => wfComment c | none => true) &&
+  decide ((f.sigs.map (·.sg.name)).Nodup)
+
 end CanVerif.Dbc
